@@ -55,7 +55,9 @@ func c12Valid(x, y float32) bool {
 	}
 	w := refcolor.XYYToXYZ(float64(x), float64(y), 1)
 	c := refcolor.BradfordM.MulV(w)
-	return c[0] >= 0.1 && c[1] >= 0.1 && c[2] >= 0.1
+	// the algebra (white to white, inverse, composition, the matrix itself) is well defined whenever
+	// no cone response vanishes; only whites within 1e-3 of that degenerate curve are left out
+	return math.Abs(c[0]) >= 1e-3 && math.Abs(c[1]) >= 1e-3 && math.Abs(c[2]) >= 1e-3
 }
 
 var c12Illuminants = map[string][2]float32{
@@ -247,7 +249,7 @@ func c12Triple(a, b, c [2]float32) (kind, msg string) {
 }
 
 func runC12(r *core.Run) {
-	r.Rule = "white set = 11 CIE illuminants + Planckian/daylight loci 2000-25000 K + seeded-offset chromaticity grid over [0.2,0.5]^2 (16x16 quick, 64x64 thorough) filtered to physically valid whites (all Bradford cone responses >= 0.1); all ordered pairs + seeded triples; non-trivial = distinct ordered pairs with A != B (triples: pairwise distinct)"
+	r.Rule = "white set = 11 CIE illuminants + Planckian/daylight loci 2000-25000 K + seeded-offset chromaticity grid over [0.2,0.5]^2 (16x16 quick, 64x64 thorough) filtered to whites inside the chromaticity diagram whose Bradford cone responses stay 1e-3 away from zero (either sign); all ordered pairs + seeded triples; non-trivial = distinct ordered pairs with A != B (triples: pairwise distinct)"
 	r.Assumptions = []string{"published Bradford matrix in refcolor; the float64 reference starts from the same float32 XYZ whites the library's xyY->XYZ step produces, and that step is checked separately against the definition"}
 	grid := 16
 	ntrip := 2000
